@@ -396,8 +396,9 @@ func c20Trans(env *c20Env) []c20TransRow {
 		"package":               {"other", "other", `"other"`},
 		"output":                {"out.go", "out.go", `"out.go"`},
 		"o":                     {nil, "out.go", `"out.go"`},
-		"include-tags":          {[]interface{}{"a", "b"}, "a,b", `["a","b"]`},
-		"exclude-tags":          {[]interface{}{"a", "b"}, "a,b", `["a","b"]`},
+		// tags may hold blanks: only the blanks around an item are trimmed
+		"include-tags":          {[]interface{}{"pet store", "b"}, " pet store , b", `["pet store","b"]`},
+		"exclude-tags":          {[]interface{}{"a", "pet store"}, "a,pet store", `["a","pet store"]`},
 		"include-operation-ids": {[]interface{}{"a", "b"}, "a,b", `["a","b"]`},
 		"exclude-operation-ids": {[]interface{}{"a", "b"}, "a,b", `["a","b"]`},
 		"exclude-schemas":       {[]interface{}{"a", "b"}, "a,b", `["a","b"]`},
